@@ -461,10 +461,10 @@ pub fn ss_udp_client(c: &Cfg) -> Box<dyn RealSsUdpClient> {
     let kind = cipher_kind(m);
     if m.key_len() == 16 {
         let (k, ik) = leak_keys::<16>(&keys.psk, &keys.ipsks);
-        Box::new(SsUdpClient::<16>(cv::shadowsocks::udp::DatagramPacketCodec::new(ssudp::SessionCodec::new(ssudp::Context::new(Mode::Client, None, k, ik), ssudp::AEADCipherCodec::new(kind)))))
+        Box::new(SsUdpClient::<16>(cv::shadowsocks::udp::DatagramPacketCodec::new(ssudp::SessionCodec::new(ssudp::Context::new(Mode::Client, None, k, ik), ssudp::AEADCipherCodec::new(kind)), kind)))
     } else {
         let (k, ik) = leak_keys::<32>(&keys.psk, &keys.ipsks);
-        Box::new(SsUdpClient::<32>(cv::shadowsocks::udp::DatagramPacketCodec::new(ssudp::SessionCodec::new(ssudp::Context::new(Mode::Client, None, k, ik), ssudp::AEADCipherCodec::new(kind)))))
+        Box::new(SsUdpClient::<32>(cv::shadowsocks::udp::DatagramPacketCodec::new(ssudp::SessionCodec::new(ssudp::Context::new(Mode::Client, None, k, ik), ssudp::AEADCipherCodec::new(kind)), kind)))
     }
 }
 
@@ -574,4 +574,50 @@ impl Encoder<Vec<u8>> for ClientDgramDec {
     fn encode(&mut self, _item: Vec<u8>, _dst: &mut BytesMut) -> Result<()> {
         Err(anyhow!("not used"))
     }
+}
+
+// ---------------------------------------------------------------------------------------------
+// one decoder type for every role, yielding flattened events
+
+#[derive(Clone, Debug, PartialEq, Eq)]
+pub enum Ev {
+    Addr(Addr),
+    Bytes(Vec<u8>),
+    Dgram(Vec<u8>, Option<Addr>),
+}
+
+/// Any of the real decoders behind `tokio_util::codec::Decoder`, so the real FramedRead / WebSocketFramed drive it.
+pub struct AnyDec(pub Box<dyn FnMut(&mut BytesMut) -> Result<Option<Vec<Ev>>> + Send>);
+
+impl Decoder for AnyDec {
+    type Item = Vec<Ev>;
+    type Error = anyhow::Error;
+    fn decode(&mut self, src: &mut BytesMut) -> Result<Option<Vec<Ev>>> {
+        (self.0)(src)
+    }
+}
+
+impl Encoder<Vec<u8>> for AnyDec {
+    type Error = anyhow::Error;
+    fn encode(&mut self, _item: Vec<u8>, _dst: &mut BytesMut) -> Result<()> {
+        Err(anyhow!("AnyDec does not encode"))
+    }
+}
+
+pub fn any_server(mut s: Box<dyn RealServer>) -> AnyDec {
+    AnyDec(Box::new(move |b| {
+        Ok(s.decode(b)?.map(|it| match it {
+            SrvItem::Connect(d, a) => vec![Ev::Addr(a), Ev::Bytes(d)],
+            SrvItem::Tcp(d) => vec![Ev::Bytes(d)],
+            SrvItem::Udp(d, a) => vec![Ev::Dgram(d, Some(a))],
+        }))
+    }))
+}
+
+pub fn any_client(mut c: Box<dyn RealClient>) -> AnyDec {
+    AnyDec(Box::new(move |b| Ok(c.decode(b)?.map(|d| vec![Ev::Bytes(d)]))))
+}
+
+pub fn any_client_dgram(mut c: Box<dyn RealClientDgram>) -> AnyDec {
+    AnyDec(Box::new(move |b| Ok(c.decode(b)?.map(|(d, a)| vec![Ev::Dgram(d, a)]))))
 }
